@@ -84,6 +84,11 @@ fn model_of(lib_text: &str) -> Pkg {
         let l = line.trim();
         if let Some(rest) = l.strip_prefix("package ") {
             let id = rest.trim_end_matches(';');
+            let (id, version) = match id.split_once('@') {
+                Some((i, v)) => (i, Some(v.to_string())),
+                None => (id, None),
+            };
+            pkg.version = version;
             if let Some((ns, name)) = id.split_once(':') {
                 pkg.ns = ns.to_string();
                 pkg.name = name.to_string();
@@ -107,7 +112,7 @@ fn model_of(lib_text: &str) -> Pkg {
                 let is_resource = source
                     .map(|i| i.types.iter().any(|(n, d)| *n == name && matches!(d, witgen::TypeDef::Resource { .. })))
                     .unwrap_or(false);
-                let source_id = if path.contains(':') { path.to_string() } else { format!("{}:{}/{path}", pkg.ns, pkg.name) };
+                let source_id = if path.contains(':') { path.to_string() } else { pkg.iface_id(path) };
                 if let Some(c) = cur.as_mut() {
                     c.uses.push(witgen::Use { path: path.to_string(), source_id, name, as_name, is_resource });
                 }
